@@ -12,8 +12,9 @@ META = dict(
     explanation='Path-wise symbolic execution (engine/symir.py, z3) of the real flow::Action base class, AssembleAction, SequenceAction, ParallelAction and DummyAction on a fake loop (deferred finish/block notifications run pass by pass) and fake timers. '
                 'Composite mode, every leaf outcome (success / failure / block / never), whether a leaf completes inside its start hook or on a later loop pass, a timeout on the root and one control call (none / stop / pause+resume / reset) at a symbolic pass are symbolic. '
                 'Checked: the root finish callback fires exactly once and only when the root finished; the sequence result and the set and order of started children equal the documented meaning of the mode; no child is started twice within a run; after stop, reset or finish no descendant is running or paused; '
-                'after stop/reset - also after every still-armed timer has expired - no stale finish notification arrives and a reset tree is idle.',
-    bounds='one composite (sequence over 3 leaves, parallel over 2 leaves; 3 in the thorough tier), 4 loop passes, one control call',
-    outside='IfElse / IfThen / Switch / Loop / LoopIf / Repeat / Wrapper / Composite / Function / Sleep actions and nested composites (not encoded in this revision); ActionExecutor; the exact result of ParallelAction per mode (only liveness/consistency clauses are checked for it); JSON dumps',
+                'after stop/reset - also after every still-armed timer has expired - no stale finish notification arrives and a reset tree is idle.'
+                ' Extended: six control scripts (none, stop, pause+resume, reset, pause after a child completed then resume, or resume-pause-resume back to back), each followed by reset and a second run that must behave like a fresh tree; RepeatAction (1-3 times, all modes) and LoopAction (until-fail / until-succ) over a probe leaf with per-round symbolic outcomes against the documented loop meaning.',
+    bounds='one composite (sequence over 3 leaves, parallel over 2 leaves; 3 in the thorough tier), 4 loop passes, one control call; Repeat/Loop: <= 5 rounds',
+    outside='IfElse / IfThen / Switch / LoopIf / Wrapper / Composite / Function / Sleep actions and nested composites (not encoded in this revision); RepeatAction with times == 0 (means "forever" in this library); ActionExecutor; the exact result of ParallelAction per mode (only liveness/consistency clauses are checked for it); JSON dumps',
     assumptions=['fake loop runs runNext callbacks pass by pass and supports cancel like CommonLoop (C01 checks the real one)', 'fake timers fire only when the harness says so'],
     trusted_base=['clang++-14 -O1 IR', 'engine/symir.py', 'z3', 'harness/vp_fakes.hpp'])
